@@ -390,6 +390,7 @@ async fn run_conn(c: Case) -> Verdict {
             };
             let mut sent = 0usize;
             let mut end_at = None;
+            let mut done_at: Option<u32> = None;
             for i in 0..70u32 {
                 if sent < frame.len() && (!stall || i == 0) {
                     let n = step.min(frame.len() - sent);
@@ -401,10 +402,14 @@ async fn run_conn(c: Case) -> Verdict {
                     end_at = Some(t0.elapsed());
                     break;
                 }
-                if sent >= frame.len() && i > 8 {
+                // after the last byte the connection idles for 2 s (4 ticks): nothing may fire on the empty buffer
+                if sent >= frame.len() && done_at.is_none() {
+                    done_at = Some(i);
+                }
+                if done_at.is_some_and(|d| i >= d + 4) && i > 8 {
                     break;
                 }
-                if t0.elapsed() > Duration::from_millis(if frame.len() > 400 { 9500 } else { 7500 }) {
+                if t0.elapsed() > Duration::from_millis(if frame.len() > 400 { 11_000 } else { 7500 }) {
                     break;
                 }
             }
